@@ -9,12 +9,14 @@ def is_pause_resume(kind):
     return kind in ("hb-promotion", "hb-pasha", "hb-cost", "hb-rush-prom", "shb", "dehb", "pbt")
 
 
-def make(kind, mode="min", seed=0, R=4, mra=True, space=None, **kw):
+def make(kind, mode="min", seed=0, R=4, mra=True, space=None, metric="m", allow_duplicates=False, set_tk=True, **kw):
     """returns (scheduler, info) ; info: dict(mra=name|None, metric(s), resource_attr)"""
     from syne_tune.config_space import uniform, choice, randint
     from syne_tune.optimizer.schedulers import FIFOScheduler, HyperbandScheduler, PopulationBasedTraining, MedianStoppingRule
     so = {"debug_log": False}
-    info = dict(metric="m", resource_attr="epoch", mra=None, metrics=None)
+    if allow_duplicates:
+        so["allow_duplicates"] = True
+    info = dict(metric=metric, resource_attr="epoch", mra=None, metrics=None)
     base_space = dict(space) if space is not None else {"a": uniform(0, 1), "b": randint(0, 9)}
     if kind.startswith("fifo"):
         searcher = {"fifo-random": "random", "fifo-grid": "grid", "fifo-bo": "bayesopt"}[kind]
@@ -22,12 +24,12 @@ def make(kind, mode="min", seed=0, R=4, mra=True, space=None, **kw):
             base_space = dict(space) if space is not None else {"a": choice([0.1, 0.5, 0.9]), "b": choice([1, 2])}
         if kind == "fifo-bo":
             so.update(num_init_random=10 ** 6)
-        s = FIFOScheduler(base_space, searcher=searcher, metric="m", mode=mode, random_seed=seed, search_options=so,
+        s = FIFOScheduler(base_space, searcher=searcher, metric=metric, mode=mode, random_seed=seed, search_options=so,
                           **kw)
     elif kind.startswith("hb-"):
         typ = {"hb-stopping": "stopping", "hb-promotion": "promotion", "hb-pasha": "pasha", "hb-cost": "cost_promotion",
                "hb-rush-stop": "rush_stopping", "hb-rush-prom": "rush_promotion"}[kind]
-        args = dict(searcher="random", type=typ, metric="m", mode=mode, resource_attr="epoch", grace_period=1,
+        args = dict(searcher="random", type=typ, metric=metric, mode=mode, resource_attr="epoch", grace_period=1,
                     reduction_factor=2, random_seed=seed, search_options=so)
         if mra:
             base_space["epochs"] = R
@@ -45,7 +47,7 @@ def make(kind, mode="min", seed=0, R=4, mra=True, space=None, **kw):
     elif kind == "shb":
         from syne_tune.optimizer.schedulers.synchronous import SynchronousHyperbandScheduler
         br = kw.pop("bracket_rungs", [[(3, 1), (2, 2), (1, R)], [(2, 2), (1, R)]])
-        args = dict(metric="m", mode=mode, resource_attr="epoch", searcher="random", random_seed=seed, search_options=so)
+        args = dict(metric=metric, mode=mode, resource_attr="epoch", searcher="random", random_seed=seed, search_options=so)
         if mra:
             base_space["epochs"] = R
             args["max_resource_attr"] = "epochs"
@@ -57,7 +59,7 @@ def make(kind, mode="min", seed=0, R=4, mra=True, space=None, **kw):
     elif kind == "dehb":
         from syne_tune.optimizer.schedulers.synchronous import DifferentialEvolutionHyperbandScheduler
         br = kw.pop("rungs_first_bracket", [(3, 1), (2, 2), (1, R)])
-        args = dict(metric="m", mode=mode, resource_attr="epoch", searcher="random_encoded", random_seed=seed,
+        args = dict(metric=metric, mode=mode, resource_attr="epoch", searcher="random_encoded", random_seed=seed,
                     search_options=so)
         if mra:
             base_space["epochs"] = R
@@ -68,21 +70,21 @@ def make(kind, mode="min", seed=0, R=4, mra=True, space=None, **kw):
         args.update(kw)
         s = DifferentialEvolutionHyperbandScheduler(base_space, rungs_first_bracket=br, **args)
     elif kind == "pbt":
-        args = dict(metric="m", mode=mode, resource_attr="epoch", population_size=kw.pop("population_size", 2),
+        args = dict(metric=metric, mode=mode, resource_attr="epoch", population_size=kw.pop("population_size", 2),
                     perturbation_interval=kw.pop("perturbation_interval", 1), quantile_fraction=0.5,
                     resample_probability=0.25, random_seed=seed, search_options=so, max_t=R)
         args.update(kw)
         s = PopulationBasedTraining(base_space, **args)
     elif kind == "moasha":
         from syne_tune.optimizer.schedulers.multiobjective import MOASHA
-        s = MOASHA(base_space, metrics=["m", "m2"], mode=[mode, "min"], time_attr="epoch", max_t=R, grace_period=1,
+        s = MOASHA(base_space, metrics=[metric, "m2"], mode=[mode, "min"], time_attr="epoch", max_t=R, grace_period=1,
                    reduction_factor=2, **kw)
-        info["metrics"] = ["m", "m2"]
+        info["metrics"] = [metric, "m2"]
     elif kind == "median":
-        inner = FIFOScheduler(base_space, searcher="random", metric="m", mode=mode, random_seed=seed, search_options=so)
+        inner = FIFOScheduler(base_space, searcher="random", metric=metric, mode=mode, random_seed=seed, search_options=so)
         s = MedianStoppingRule(inner, resource_attr="epoch", grace_time=1, grace_population=2, **kw)
     else:
         raise ValueError(kind)
-    if hasattr(s, "set_time_keeper"):
+    if set_tk and hasattr(s, "set_time_keeper"):
         s.set_time_keeper(env.ConstTimeKeeper())
     return s, info
